@@ -60,7 +60,10 @@ type Env struct {
 	Bytes     [][]byte
 	Files     []string
 	Shared    []*canvas.Font // loaded once per phase by the harness, shared read-only by all tasks
-	NoName    []bool
+	// Drawn[t] is the canvas task t drew with its last "draw" call and has not rendered yet
+	// (each task touches only its own slot).
+	Drawn  []*drawn
+	NoName []bool
 }
 
 var fontBytesCache = map[string][]byte{}
@@ -100,6 +103,11 @@ func fontBytes(resources, name string) ([]byte, error) {
 	}
 	fontBytesCache[name] = b
 	return b, nil
+}
+
+type drawn struct {
+	c *canvas.Canvas
+	d *Drawing
 }
 
 // NewEnv prepares the run's font table. With lazy=false all fonts are loaded at once (simulation
@@ -326,7 +334,7 @@ func errResult(err error) Result {
 // ---- executing steps ------------------------------------------------------------------------
 
 // ExecStep runs one API call and canonicalises its outcome. Panics become results.
-func ExecStep(env *Env, st *Step) (res Result) {
+func ExecStep(env *Env, task int, st *Step) (res Result) {
 	defer func() {
 		if r := recover(); r != nil {
 			if ab, ok := r.(simrt.ErrAbort); ok {
@@ -342,7 +350,7 @@ func ExecStep(env *Env, st *Step) (res Result) {
 			res = Result{Kind: "panic", Hash: h.h, Brief: msg + " @ " + topFrame(stack)}
 		}
 	}()
-	return execStep(env, st)
+	return execStep(env, task, st)
 }
 
 func topFrame(stack string) string {
@@ -359,7 +367,7 @@ func topFrame(stack string) string {
 	return "?"
 }
 
-func execStep(env *Env, st *Step) Result {
+func execStep(env *Env, task int, st *Step) Result {
 	switch st.Op {
 	case "and", "or", "xor", "not", "div":
 		a, b := buildPath(st.A), buildPath(st.B)
@@ -517,6 +525,19 @@ func execStep(env *Env, st *Step) Result {
 
 	case "render":
 		return renderStep(env, st)
+	case "draw":
+		// draw now, render in a later call of the same task ("renderdrawn"): other tasks run in between
+		for len(env.Drawn) <= task {
+			env.Drawn = append(env.Drawn, nil)
+		}
+		env.Drawn[task] = &drawn{c: drawCanvas(env, st.Draw), d: st.Draw}
+		return Result{Kind: "bytes", Hash: 7, Brief: fmt.Sprintf("drew %d items", len(st.Draw.Items))}
+	case "renderdrawn":
+		if task >= len(env.Drawn) || env.Drawn[task] == nil {
+			return Result{Kind: "bytes", Hash: 8, Brief: "nothing drawn"}
+		}
+		dr := env.Drawn[task]
+		return renderOnce(dr.c, dr.d, st)
 	}
 	panic("unknown op " + st.Op)
 }
@@ -571,6 +592,18 @@ func (s *faultySink) Write(p []byte) (int, error) {
 
 func renderStep(env *Env, st *Step) Result {
 	d := st.Draw
+	c := drawCanvas(env, d)
+	res := renderOnce(c, d, st)
+	if st.Repeat && st.FailAt == 0 {
+		// the same canvas object, the same fonts, the same options, again
+		if again := renderOnce(c, d, st); !again.Equal(res) {
+			res.RepeatDiff = fmt.Sprintf("first render: %s; second render of the same canvas: %s", res.Brief, again.Brief)
+		}
+	}
+	return res
+}
+
+func drawCanvas(env *Env, d *Drawing) *canvas.Canvas {
 	c := canvas.New(d.W, d.H)
 	ctx := canvas.NewContext(c)
 	for _, it := range d.Items {
@@ -618,14 +651,7 @@ func renderStep(env *Env, st *Step) Result {
 		}
 		ctx.Pop()
 	}
-	res := renderOnce(c, d, st)
-	if st.Repeat && st.FailAt == 0 {
-		// the same canvas object, the same fonts, the same options, again
-		if again := renderOnce(c, d, st); !again.Equal(res) {
-			res.RepeatDiff = fmt.Sprintf("first render: %s; second render of the same canvas: %s", res.Brief, again.Brief)
-		}
-	}
-	return res
+	return c
 }
 
 func renderOnce(c *canvas.Canvas, d *Drawing, st *Step) Result {
